@@ -98,6 +98,18 @@ def c01_r1_commit_protocol(ctx):
         ctx.check(not core.point_reached(f, r4, p.bb, p.idx), 'order|%s|final-flush|%s' % (f.path, p.desc), '%s only after the final flush' % p.desc, f, p.line)
         ctx.check(not core.point_reached(f, r5, p.bb, p.idx), 'after-success|%s|final-flush|%s' % (f.path, p.desc), '%s only on the Ok edge of the final flush' % p.desc, f, p.line)
     held_at_stores(ctx, f, pub + rfs, 'self.state')
+    # the secondary slot of the *private copy* is rewritten: the shared in-memory header must not name
+    # the new roots before they are durable (readers are served from it)
+    ctx.not_held(f, wss + swap, 'self.state', 'slot rewritten / primary flipped on the private header copy, not under the state lock')
+    for p_ in wss + swap:
+        a0 = p_.call.t['a'][0]
+        root = None
+        if a0[0] in ('c', 'm'):
+            for d_ in f.defs.get(a0[1][0], []):
+                if d_[0] == 'stmt' and d_[3]['k'] == 'ref' and not d_[3]['p'][1]:
+                    root = d_[3]['p'][0]
+        is_clone = root is not None and any(d_[0] == 'call' and core.CallSite(f, d_[1], d_[2]).matches('Clone::clone') for d_ in f.defs.get(root, []))
+        ctx.check(is_clone, 'receiver|%s|%s' % (f.path, p_.desc), '%s operates on a local clone of the header (`%s`), not on the shared in-memory header' % (p_.desc, f.local_name(root) if root is not None else '?'), f, p_.line)
     # (g) id monotonicity assert cuts write_secondary_slot (assert!, not debug_assert!)
     ctx.guarded_cmp(f, wss, [Guard(call='DatabaseHeader::primary_slot', cmp=True)], 'write_secondary_slot control-dependent on the transaction-id comparison with the primary slot')
     # entry: refuse after an I/O failure
@@ -810,6 +822,33 @@ def c01_r5_cow(ctx):
         ctx.guarded(f, pts, [true_of(PA + '::uncommitted')], 'direct free only behind uncommitted() == true')
     ctx.check(n >= 3, 'floor|btree-free-sites', 'the 3 confirmed direct free sites in btree code were analysed (found %d)' % n)
 
+    ctx.set_rule('C01.R5e', 'a page is queued on the freed list only if it is committed (the uncommitted ones are freed at once)')
+    total = 0
+    unguarded = []
+    for f in ctx.facts.fn_list:
+        if not f.file.endswith('btree_mutator.rs'):
+            continue
+        S_ = core.sym(f)
+        pushes = [c for c in f.calls_to('Vec::push') if c.t['a'] and S_.describe(S_.operand(c.t['a'][0])).endswith('.freed')]
+        if not pushes:
+            continue
+        edges = core.guard_edges(f, [false_of(PA + '::uncommitted')])
+        r = core.reach(f, cut_edges=edges)
+        for c in pushes:
+            total += 1
+            g = bool(edges) and c.bb not in r['term']
+            if not g:
+                unguarded.append((f, c))
+            ctx._ob(True, ctx.sample('guard', f, c.line, 'freed.push %s' % ('behind uncommitted()==false' if g else 'UNGUARDED')))
+    ctx.per_rule[ctx.rule]['sites'] += total
+    ctx.check(total >= 4, 'floor|freed-push-sites', 'direct freed.push sites in btree_mutator examined: %d' % total)
+    # the single confirmed exception: the same-size replacement in insert_helper, which only a committed
+    # page can reach (an uncommitted page with an unchanged value length always takes the in-place path)
+    exc = [x for x in unguarded if core.name_matches('MutateHelper::insert_helper', x[0].names)]
+    other = [x for x in unguarded if x not in exc]
+    ctx.check(len(exc) <= 1, 'cow|insert_helper|freed.push', 'at most the one confirmed unguarded freed.push (same-size replacement) in insert_helper, found %d' % len(exc), exc[0][0] if exc else None, exc[0][1].line if exc else None)
+    ctx.check(not other, 'cow|%s|freed.push' % (other[0][0].path if other else ''), 'every other direct freed.push in btree_mutator is behind uncommitted() == false', other[0][0] if other else None, other[0][1].line if other else None)
+
     ctx.set_rule('C01.R5d', 'unsafe inventory: owners of unsafe blocks are the confirmed ones')
     allowed = {
         'PageList::from_bytes_mut': 'transmute of a byte slice to the in-place PageList view (values, not pages of other snapshots)',
@@ -1200,6 +1239,35 @@ def c05_r4_poison(ctx):
                 po = ctx.sites(fs[0], WT + '::poison', exact=1)
                 ctx.guarded(fs[0], po, gs)
                 n += 1
+    # a panicking predicate is detected through a flag that is set across the call: in every
+    # BtreeExtractIf method that invokes the caller's predicate, `predicate_running = true` is stored
+    # before the call and `= false` after it; predicate_panicked() reads that flag
+    m = 0
+    for f in ctx.facts.fn_list:
+        if 'extract_if::BtreeExtractIf' not in f.path:
+            continue
+        pc = [c for c in f.calls if c.declared and c.declared.split('::')[-1] in ('call_mut', 'call_once', 'call') and c.resolved is None]
+        if not pc:
+            continue
+        m += 1
+        pts = [cpoint(c, 'call of the user predicate') for c in pc]
+        st_t = ctx.stores(f, 'predicate_running', value=True)
+        st_f = ctx.stores(f, 'predicate_running', value=False)
+        ctx.order(f, st_t, pts, 'predicate_running = true is stored before the predicate runs')
+        for p_ in pts:
+            ctx.must_pass(f, st_f, start=p_, exits='any', what='predicate_running is reset after the predicate returned')
+            # and no reset between the set and the call
+            if st_t:
+                r_ = core.reach(f, start=(st_t[0].bb, st_t[0].idx), cut_points={(q.bb, q.idx) for q in st_f})
+                ctx.check(p_.bb in r_['term'], 'order|%s|flag-live-at-call' % f.path, 'the flag is still set when the predicate is called', f, p_.line)
+    ctx.check(m >= 2, 'floor|predicate-call-sites', 'BtreeExtractIf methods calling the user predicate: %d' % m)
+    g = ctx.fn('BtreeExtractIf::predicate_panicked')
+    if g is not None:
+        rl, _c, _a, _k = core.flow_sources(g, 0)
+        S_ = core.sym(g)
+        okk = any(st[0] == 'a' and st[1][0] == 0 and st[2]['k'] == 'use' and st[2]['o'][0] in ('c', 'm') and st[2]['o'][1][1] and st[2]['o'][1][1][-1] == '.predicate_running' for b in g.blocks for st in b['s'])
+        ctx.check(okk, 'flow|%s' % g.path, 'predicate_panicked() returns the predicate_running flag', g, g.line)
+    n += 1 if m >= 2 else 0
     ctx.check(n >= 7, 'floor|poison-sites', 'at least 7 poison-on-partial-failure instances were analysed (found %d)' % n)
     ctx.set_rule('C05.R5', 'a poisoned transaction stages nothing')
     f = ctx.fn(WT + '::close_table')
@@ -2450,6 +2518,13 @@ def c12_tree_rules(ctx):
         for v in vs:
             r = core.reach(f, start=(v.bb, v.idx), cut_edges=e_t)
             ctx.check(not any(core.point_reached(f, r, t.bb, t.idx) for t in trues) and not (ps and ps[0].bb in r['term'] and v.bb != ps[0].bb and False), 'guard|%s|false-propagates' % f.path, 'a failed (sub)tree verification cannot lead to Ok(true)', f, v.line)
+        # the subtree roots are parsed from EVERY page of the outer tree, not just its root page
+        it = ctx.sites(f, 'AllPageNumbersBtreeIter::new', exact=1)
+        gp = ctx.sites(f, 'PageResolver::get_page', exact=1)
+        for p_ in gp:
+            ctx.flows(f, p_, 1, from_call='AllPageNumbersBtreeIter::new', what='pages whose subtree roots are verified come from the walk over all pages of the table tree')
+        for p_ in ps:
+            ctx.flows(f, p_, 0, from_call='PageResolver::get_page')
         # with a Some root the outer verification is not skippable
         e_none = core.guard_edges(f, [Guard(place='root', vals={'None'})])
         outer = [v for v in vs if ps and v.bb not in core.reach(f, start=(ps[0].bb, ps[0].idx))['term']]
